@@ -275,6 +275,8 @@ fn sqrt_op<T: SqrtField + Elem + PartialOrd>(op: &str, a: &[&str]) -> R {
 fn sgn_op<T: Signum0 + Elem>(op: &str, a: &[&str]) -> R {
     Some(match (op, a.len()) {
         ("sgn0", 1) => show_sgn(T::parse(a[0])?.sgn0()),
+        ("negif", 2) => { let mut x = T::parse(a[0])?; x.negate_if(if a[1] == "1" { Sgn0Result::Negative } else { Sgn0Result::NonNegative }); x.show() }
+        ("sgnxor", 2) => { let f = |t: &str| if t == "1" { Sgn0Result::Negative } else { Sgn0Result::NonNegative }; show_sgn(f(a[0]) ^ f(a[1])) }
         _ => return None,
     })
 }
@@ -997,6 +999,8 @@ macro_rules! sqrt_op_c { ($name:ident, $t:ty) => { fn $name(op: &str, a: &[&str]
 macro_rules! sgn_op_c { ($name:ident, $t:ty) => { fn $name(op: &str, a: &[&str]) -> R {
     Some(match (op, a.len()) {
         ("sgn0", 1) => show_sgn(<$t>::parse(a[0])?.sgn0()),
+        ("negif", 2) => { let mut x = <$t>::parse(a[0])?; x.negate_if(if a[1] == "1" { Sgn0Result::Negative } else { Sgn0Result::NonNegative }); x.show() }
+        ("sgnxor", 2) => { let f = |t: &str| if t == "1" { Sgn0Result::Negative } else { Sgn0Result::NonNegative }; show_sgn(f(a[0]) ^ f(a[1])) }
         _ => return None,
     })
 } } }
